@@ -11,62 +11,83 @@ namespace DafRel.Bridge
 
 open DafRel
 
+/- The helpers the translator emits (`isinstance` tests, field reads, `upstream.then(self)`) and the model's small
+definitions unfold in every bridge proof, and each proof ends with the same case analysis: a rewrite of the Python
+between `match`/`isinstance`, nested/flat conditionals or early returns keeps these lemmas provable. -/
+attribute [local simp] UOp.isCalculation UOp.isDeduplication UOp.isIdentity' UOp.isProjection UOp.isSelection
+  UOp.isSlice UOp.isSort UOp.projColumns UOp.calcTag UOp.calcExpr UOp.selPred UOp.sliceStart UOp.sliceStop
+  UOp.sortTerms UOp.thenOf
+
+/-- Split every conditional / match that is left and close each case; two rounds, because simplifying with a
+branch hypothesis can expose further conditionals. -/
+local macro "split_close" : tactic =>
+  `(tactic| (all_goals (repeat' (first | rfl | split))
+             all_goals (try (first | rfl | (simp_all; done) | (grind) | simp_all))
+             all_goals (repeat' (first | rfl | split))
+             all_goals (try (first | rfl | (simp_all; done) | grind))))
+
+/-- `cases` on the other operation, unfold, split every remaining conditional, close by simplification. -/
+local macro "bridge_by_cases " x:ident : tactic =>
+  `(tactic| ((cases $x:ident <;> (try simp)); split_close))
+
 /-! ### `commute` -/
 
 theorem Calculation_commute_eq (tag : Tag) (e : Expr) (cur : UOp) (tcols ccols : Cols) :
     Gen.Calculation_commute tag e cur tcols ccols = (UOp.calc tag e).commute cur tcols ccols := by
   unfold Gen.Calculation_commute UOp.commute
-  cases cur <;> simp [UOp.columnsRequired, UOp.commuteFail, UOp.isProjection, UOp.projColumns] <;>
-    (repeat' split) <;> simp_all
+  cases cur <;> simp [UOp.columnsRequired, UOp.commuteFail]
+  split_close
 
 theorem Deduplication_commute_eq (cur : UOp) (tcols ccols : Cols) :
     Gen.Deduplication_commute cur tcols ccols = UOp.dedup.commute cur tcols ccols := by
   unfold Gen.Deduplication_commute UOp.commute
   simp only [UOp.commuteFail]
-  try ((repeat' split) <;> simp_all)
+  split_close
 
 theorem Projection_commute_eq (c : Cols) (cur : UOp) (tcols ccols : Cols) :
     Gen.Projection_commute c cur tcols ccols = (UOp.proj c).commute cur tcols ccols := by
   unfold Gen.Projection_commute UOp.commute
-  cases cur <;> simp <;> (repeat' split) <;> simp_all
+  cases cur <;> simp
+  split_close
 
 theorem Selection_commute_eq (p : Pred) (cur : UOp) (tcols ccols : Cols) :
     Gen.Selection_commute p cur tcols ccols = (UOp.sel p).commute cur tcols ccols := by
   unfold Gen.Selection_commute UOp.commute
   simp only [UOp.commuteFail, UOp.columnsRequired]
-  (repeat' split) <;> simp_all
+  split_close
 
 theorem Slice_commute_eq (s : Nat) (e : Option Nat) (cur : UOp) (tcols ccols : Cols) :
     Gen.Slice_commute s e cur tcols ccols = (UOp.slice s e).commute cur tcols ccols := by
   unfold Gen.Slice_commute UOp.commute
-  cases cur <;> rfl
+  bridge_by_cases cur
 
 theorem Sort_commute_eq (ts : List SortTerm) (cur : UOp) (tcols ccols : Cols) :
     Gen.Sort_commute ts cur tcols ccols = (UOp.sort ts).commute cur tcols ccols := by
   unfold Gen.Sort_commute UOp.commute
-  cases cur <;> simp [UOp.commuteFail, UOp.columnsRequired, UOp.isSort] <;> (repeat' split) <;> simp_all
+  cases cur <;> simp [UOp.commuteFail, UOp.columnsRequired]
+  split_close
 
 /-! ### `simplify` -/
 
 theorem Projection_simplify_eq (c : Cols) (up : UOp) :
     Gen.Projection_simplify c up = (UOp.proj c).simplify up := by
   unfold Gen.Projection_simplify UOp.simplify
-  cases up <;> simp <;> (repeat' split) <;> simp_all
+  bridge_by_cases up
 
 theorem Selection_simplify_eq (p : Pred) (up : UOp) :
     Gen.Selection_simplify p up = (UOp.sel p).simplify up := by
   unfold Gen.Selection_simplify UOp.simplify
-  cases up <;> rfl
+  bridge_by_cases up
 
 theorem Slice_simplify_eq (s : Nat) (e : Option Nat) (up : UOp) :
     Gen.Slice_simplify s e up = (UOp.slice s e).simplify up := by
   unfold Gen.Slice_simplify UOp.simplify
-  cases up <;> simp [UOp.thenOf] <;> (repeat' split) <;> simp_all
+  bridge_by_cases up
 
 theorem Sort_simplify_eq (ts : List SortTerm) (up : UOp) :
     Gen.Sort_simplify ts up = (UOp.sort ts).simplify up := by
   unfold Gen.Sort_simplify UOp.simplify
-  cases up <;> simp [UOp.thenOf] <;> (repeat' split) <;> simp_all
+  bridge_by_cases up
 
 /-! ### `_begin_apply` -/
 
@@ -74,30 +95,30 @@ theorem Calculation_begin_apply_eq (tag : Tag) (e : Expr) (t : Rel) (pref : Opti
     Gen.Calculation_begin_apply tag e t.columns t.engine pref = (UOp.calc tag e).beginApply t pref := by
   unfold Gen.Calculation_begin_apply UOp.beginApply
   simp only
-  try ((repeat' split) <;> simp_all)
+  split_close
 
 theorem Projection_begin_apply_eq (c : Cols) (t : Rel) (pref : Option Engine) :
     Gen.Projection_begin_apply c t.columns t.engine pref = (UOp.proj c).beginApply t pref := by
   unfold Gen.Projection_begin_apply UOp.beginApply
   simp only
-  try ((repeat' split) <;> simp_all)
+  split_close
 
 theorem Selection_begin_apply_eq (p : Pred) (t : Rel) (pref : Option Engine) :
     Gen.Selection_begin_apply p t.columns t.engine pref = (UOp.sel p).beginApply t pref := by
   unfold Gen.Selection_begin_apply UOp.beginApply
   simp only
-  try ((repeat' split) <;> simp_all)
+  split_close
 
 theorem Slice_begin_apply_eq (s : Nat) (e : Option Nat) (t : Rel) (pref : Option Engine) :
     Gen.Slice_begin_apply s e t.columns t.engine pref = (UOp.slice s e).beginApply t pref := by
   unfold Gen.Slice_begin_apply UOp.beginApply
   simp only
-  try ((repeat' split) <;> simp_all)
+  split_close
 
 theorem Sort_begin_apply_eq (ts : List SortTerm) (t : Rel) (pref : Option Engine) :
     Gen.Sort_begin_apply ts t.columns t.engine pref = (UOp.sort ts).beginApply t pref := by
   unfold Gen.Sort_begin_apply UOp.beginApply
   simp only
-  try ((repeat' split) <;> simp_all)
+  split_close
 
 end DafRel.Bridge
